@@ -62,7 +62,7 @@ func mkElem(tag string, gr int) (map[string]interface{}, *elemSpec) {
 	e := &elemSpec{}
 	m := map[string]interface{}{"jsonrpc": "2.0"}
 	// the server does not validate the version member of a request; its replies say "2.0" regardless
-	switch pick(tag+"version", []int{0, 1, 2}, []int{0, 1}, []int{0}, gr) {
+	switch pick(tag+"version", []int{0, 1, 2}, []int{0}, []int{0}, gr) {
 	case 1:
 		delete(m, "jsonrpc")
 	case 2:
